@@ -25,12 +25,44 @@ type cop struct {
 	msg proto.Message
 }
 
+// incSpec is an include predicate of the closed family shared with the driver: a float/double top-level
+// field (0 when unset) compared with a threshold.
+type incSpec struct {
+	Field string  `json:"field"`
+	Op    string  `json:"op"` // gt | lt | ge
+	Thr   float64 `json:"thr"`
+}
+
+func (s *incSpec) holds(m proto.Message) bool {
+	if m == nil {
+		return false
+	}
+	r := m.ProtoReflect()
+	fd := r.Descriptor().Fields().ByName(pref.Name(s.Field))
+	v := r.Get(fd).Float()
+	switch s.Op {
+	case "gt":
+		return v > s.Thr
+	case "lt":
+		return v < s.Thr
+	}
+	return v >= s.Thr
+}
+
+func (s *incSpec) token(mt pref.MessageType) string {
+	if s == nil {
+		return "any"
+	}
+	return fmt.Sprintf("%s:%d:%s", s.Op, mt.Descriptor().Fields().ByName(pref.Name(s.Field)).Number(), encFloat(s.Thr))
+}
+
 type pcase struct {
 	Kind   string // vpull | cpull
 	Spec   *mspec // nil: no equivalence configured
 	NoDup  bool   // configured through WithNoDuplicates() instead of WithMessageEquivalence
 	Type   pref.MessageType
 	Mask   []string // top-level field names; nil: no read mask
+	Inc    *incSpec // Collection.Pull only; nil: no WithInclude
 	Cur    proto.Message
 	Writes []proto.Message
 	Ops    []cop
@@ -42,13 +74,14 @@ type pcaseJSON struct {
 	NoDup  bool      `json:"no_duplicates,omitempty"`
 	Type   string    `json:"type"`
 	Mask   []string  `json:"mask"`
+	Inc    *incSpec  `json:"include,omitempty"`
 	Cur    msgJSON   `json:"cur"`
 	Writes []msgJSON `json:"writes,omitempty"`
 	Ops    []cop     `json:"ops,omitempty"`
 }
 
 func (c pcase) json() pcaseJSON {
-	j := pcaseJSON{Op: c.Kind, Spec: c.Spec, NoDup: c.NoDup, Type: string(c.Type.Descriptor().FullName()), Mask: c.Mask, Cur: toJSON(c.Cur)}
+	j := pcaseJSON{Op: c.Kind, Spec: c.Spec, NoDup: c.NoDup, Type: string(c.Type.Descriptor().FullName()), Mask: c.Mask, Inc: c.Inc, Cur: toJSON(c.Cur)}
 	for _, w := range c.Writes {
 		j.Writes = append(j.Writes, toJSON(w))
 	}
@@ -64,7 +97,7 @@ func (j pcaseJSON) decode() (pcase, error) {
 	if err != nil {
 		return pcase{}, err
 	}
-	c := pcase{Kind: j.Op, Spec: j.Spec, NoDup: j.NoDup, Type: mt, Mask: j.Mask}
+	c := pcase{Kind: j.Op, Spec: j.Spec, NoDup: j.NoDup, Type: mt, Mask: j.Mask, Inc: j.Inc}
 	if c.Cur, err = fromJSON(j.Cur); err != nil {
 		return c, err
 	}
@@ -100,6 +133,10 @@ func (c pcase) readOptions() []resource.ReadOption {
 	ro := []resource.ReadOption{resource.WithBackpressure(true)}
 	if c.Mask != nil {
 		ro = append(ro, resource.WithReadMask(&fieldmaskpb.FieldMask{Paths: c.Mask}))
+	}
+	if c.Inc != nil {
+		inc := c.Inc
+		ro = append(ro, resource.WithInclude(func(_ string, m proto.Message) bool { return inc.holds(m) }))
 	}
 	return ro
 }
@@ -154,6 +191,8 @@ type pullOut struct {
 	events    []proto.Message // value pull: new value of each write
 	olds      []proto.Message // collection pull
 	ids       []string
+	listed    []string // collection pull with include: ids List(WithInclude) shows after each write
+	listErr   string
 	delivered []bool
 	got       []proto.Message
 }
@@ -314,6 +353,19 @@ func (c pcase) runCollection(out *pullOut) {
 		} else {
 			cur[o.Id] = clone(nv)
 		}
+		if c.Inc != nil {
+			inc := c.Inc
+			var ids []string
+			for _, id := range []string{"a", "b"} {
+				if m, ok := col.Get(id); ok && inc.holds(m) {
+					ids = append(ids, id)
+				}
+			}
+			if n := len(col.List(resource.WithInclude(func(_ string, m proto.Message) bool { return inc.holds(m) }))); n != len(ids) {
+				out.listErr = fmt.Sprintf("List(WithInclude) shows %d items, Get+predicate %d", n, len(ids))
+			}
+			out.listed = append(out.listed, strings.Join(ids, ","))
+		}
 	}
 	tEnd := t0.Add(time.Hour)
 	clk.set(tEnd)
@@ -379,6 +431,7 @@ func (c pcase) line(out pullOut) string {
 			parts = append(parts, encTop(e))
 		}
 	} else {
+		parts = append(parts, c.Inc.token(c.Type))
 		for i, e := range out.events {
 			parts = append(parts, encTop(out.olds[i]), encTop(e))
 		}
@@ -427,15 +480,20 @@ func (c pcase) monitor(ms *monitors, out pullOut) string {
 			id = out.ids[i]
 		}
 		n := c.oracleFilter(ev)
+		if c.Inc != nil && !c.Inc.holds(ev) {
+			n = nil // outside the include filter: the subscriber must not see the item
+		}
 		h := held[id]
 		equiv := false
 		if E != nil {
 			equiv = E(h, n)
 		}
-		key := fmt.Sprintf("%s %s %s %s|%s", c.Kind, c.specToken(), c.filterToken(), encTop(h), encTop(n))
+		// nothing held and nothing to show: no change for this subscriber; otherwise deliver iff not equivalent
+		expected := !(h == nil && n == nil) && !equiv
+		key := fmt.Sprintf("%s %s %s %s %s|%s", c.Kind, c.specToken(), c.filterToken(), c.Inc.token(c.Type), encTop(h), encTop(n))
 		ms.delivery.Eval(key, E != nil, nil)
-		ms.delivery.Count(fmt.Sprintf("%s:equiv=%v:delivered=%v", c.Kind, equiv, out.delivered[i]))
-		if out.delivered[i] == equiv {
+		ms.delivery.Count(fmt.Sprintf("%s:include=%v:equiv=%v:delivered=%v", c.Kind, c.Inc != nil, equiv, out.delivered[i]))
+		if out.delivered[i] != expected {
 			what, kind := "a change equivalent to the value the subscriber holds was delivered", "delivered-equivalent"
 			if !out.delivered[i] {
 				what, kind = "a change NOT equivalent to the value the subscriber holds was suppressed", "suppressed-nonequivalent"
@@ -444,7 +502,15 @@ func (c pcase) monitor(ms *monitors, out pullOut) string {
 			if c.Kind == "vpull" && c.Mask != nil && heldIsSeed && kind == "delivered-equivalent" {
 				sig = "C16/Value.Pull/read-mask/delivered-equivalent-to-seed"
 			}
-			ms.delivery.Violate(sig, what, in, fmt.Sprintf("event %d delivered=%v (held=%v new=%v)", i, !equiv, h, n), fmt.Sprintf("delivered=%v", out.delivered[i]))
+			if c.Kind == "cpull" && (h == nil) != (n == nil) {
+				// the item enters or leaves the subscriber's view: never equivalent, whatever the tolerance
+				sig = "C16/Collection.Pull/membership-change-suppressed"
+				what = "an item entering/leaving the subscriber's view (ADD/REMOVE) was not delivered"
+			} else if c.Kind == "cpull" && h == nil && n == nil {
+				sig = "C16/Collection.Pull/invisible-change-delivered"
+				what = "a change to an item the subscriber neither holds nor may see was delivered"
+			}
+			ms.delivery.Violate(sig, what, in, fmt.Sprintf("event %d delivered=%v (held=%v new=%v)", i, expected, h, n), fmt.Sprintf("delivered=%v", out.delivered[i]))
 		}
 		if out.delivered[i] {
 			if n == nil {
@@ -454,6 +520,19 @@ func (c pcase) monitor(ms *monitors, out pullOut) string {
 			}
 			heldIsSeed = false
 		}
+		if c.Kind == "cpull" && c.Inc != nil && i < len(out.listed) {
+			var ids []string
+			for id := range held {
+				ids = append(ids, id)
+			}
+			sort.Strings(ids)
+			if view := strings.Join(ids, ","); view != out.listed[i] {
+				ms.delivery.Violate("C16/Collection.Pull/include/view-differs-from-List", "after a write the ids in the subscriber's folded view differ from List(WithInclude)", in, fmt.Sprintf("after op %d: {%s}", i, out.listed[i]), "{"+view+"}")
+			}
+		}
+	}
+	if out.listErr != "" {
+		ms.delivery.Violate("C16/Collection.List/include-count", "List(WithInclude) disagrees with Get + predicate", in, "same count", out.listErr)
 	}
 	return c.codeAnswer(out)
 }
@@ -562,13 +641,85 @@ func (g *gen) pcase() pcase {
 	return c
 }
 
+var includeFields = []string{"default_double", "default_float", "optional_double"}
+
+// pcaseInclude: Collection.Pull with WithInclude on a float field of TestAllTypes. Every write nudges that
+// field by a small recorded step (and sometimes something else); the threshold is placed on, just below
+// or just above one of the written values, so writes cross the include boundary by less than, exactly, or
+// more than the tolerance.
+func (g *gen) pcaseInclude() pcase {
+	g.floatDeltas, g.nsDeltas = nil, nil
+	g.special = false
+	g.noUnknown, g.noNegZero = true, true
+	defer func() { g.noUnknown, g.noNegZero = false, false }()
+	mt := ancestorTypes[0] // TestAllTypes
+	field := includeFields[g.r.Intn(len(includeFields))]
+	fd := mt.Descriptor().Fields().ByName(pref.Name(field))
+	c := pcase{Kind: "cpull", Type: mt}
+	base := g.newMessage(mt, 1)
+	base.ProtoReflect().Set(fd, floatValue(fd, floatDomain[g.r.Intn(len(floatDomain))]))
+	var written []float64
+	next := func(prev proto.Message) proto.Message {
+		m := proto.Clone(prev)
+		r := m.ProtoReflect()
+		if g.r.Intn(5) != 0 {
+			r.Set(fd, floatValue(fd, g.nudgeFloat(r.Get(fd).Float())))
+		}
+		if g.r.Intn(3) == 0 {
+			g.mutate(r, 1)
+		}
+		written = append(written, r.Get(fd).Float())
+		return m
+	}
+	ids := []string{"a", "b"}
+	cur := map[string]proto.Message{}
+	for n := g.r.Intn(7) + 2; n > 0; n-- {
+		id := ids[g.r.Intn(2)]
+		prev, ok := cur[id]
+		switch {
+		case !ok:
+			m := next(base)
+			c.Ops = append(c.Ops, cop{Op: "add", Id: id, msg: m})
+			cur[id] = m
+		case g.r.Intn(8) == 0:
+			c.Ops = append(c.Ops, cop{Op: "delete", Id: id})
+			delete(cur, id)
+		default:
+			m := next(prev)
+			c.Ops = append(c.Ops, cop{Op: "update", Id: id, msg: m})
+			cur[id] = m
+		}
+	}
+	thr := written[g.r.Intn(len(written))] + []float64{0, 0, -0.125, 0.125, -0.0625, 0.0625, 0.5, -1}[g.r.Intn(8)]
+	c.Inc = &incSpec{Field: field, Op: []string{"gt", "lt", "ge"}[g.r.Intn(3)], Thr: thr}
+	switch g.r.Intn(6) {
+	case 0:
+		c.Spec = nil
+	case 1:
+		s := plainEqual
+		c.Spec, c.NoDup = &s, g.r.Intn(2) == 0
+	default:
+		c.Spec = &mspec{E: []espec{{V: []vspec{{Atoms: []atom{g.atom("fa")}}}}}}
+	}
+	if g.r.Intn(3) == 0 {
+		c.Mask = g.mask(mt, base)
+		if c.Mask != nil && g.r.Intn(2) == 0 {
+			c.Mask = append(c.Mask, field)
+		}
+	}
+	return c
+}
+
 func runPull(f lib.Flags, res *lib.Result, drv *lib.Driver, ms *monitors) {
 	tie := res.Tie("pull-equivalence", "K1",
-		"random runs of Value.Pull (initial value or none, 1-6 Sets) and Collection.Pull (1-7 Add/Update/Delete on two ids) with backpressure, equivalence = none | WithNoDuplicates | Equal() | Equal(tolerances around the written differences), read mask = none | 1-3 top-level fields; each write is the previous value mutated in 0-2 places. The model gets the event values the code produced and must reproduce the delivered/suppressed decision of every event. Non-trivial: distinct runs with an equivalence configured")
+		"random runs of Value.Pull (initial value or none, 1-6 Sets) and Collection.Pull (1-7 Add/Update/Delete on two ids) with backpressure, equivalence = none | WithNoDuplicates | Equal() | Equal(tolerances around the written differences), read mask = none | 1-3 top-level fields; each write is the previous value mutated in 0-2 places; every third run is a Collection.Pull with WithInclude(float field gt/lt/ge threshold), equivalence none | exact | FloatValueApprox around the written steps, writes nudging the compared field, threshold on / just below / just above a written value, optional read mask (with or without the compared field). The model gets the event values the code produced and must reproduce the delivered/suppressed decision of every event. Non-trivial: distinct runs with an equivalence configured")
 	g := &gen{r: lib.NewRand(f.Seed + 104729)}
 	n := f.N(500, 6000)
 	for i := 0; i < n; i++ {
 		c := g.pcase()
+		if i%3 == 2 {
+			c = g.pcaseInclude()
+		}
 		out := c.runCode()
 		code := c.monitor(ms, out)
 		if out.err != "" {
@@ -582,7 +733,7 @@ func runPull(f lib.Flags, res *lib.Result, drv *lib.Driver, ms *monitors) {
 			return
 		}
 		tie.Record(line, c.Spec != nil, c.json(), model, code)
-		tie.Count(c.Kind + ":" + map[bool]string{true: "mask", false: "nomask"}[c.Mask != nil])
+		tie.Count(c.Kind + ":" + map[bool]string{true: "mask", false: "nomask"}[c.Mask != nil] + map[bool]string{true: ":include", false: ""}[c.Inc != nil])
 		if c.Spec == nil {
 			tie.Count("equivalence:none")
 		} else if c.tolerance() {
